@@ -68,17 +68,18 @@ Qed.
 (* ---------- effect of paying one record on the ledger ---------- *)
 Lemma pay_one_other method tid denom l f o l' a d :
   pay_one method tid denom l f o = Some l' ->
-  a <> treasury tid -> a <> fst o ->
+  a <> treasury tid -> a <> fst o -> a <> sbt_supply ->
   bal_get l' a d = bal_get l a d.
 Proof.
-  destruct o as [addr amt]. unfold pay_one. simpl. intros H Ht Ha.
+  destruct o as [addr amt]. unfold pay_one. simpl. intros H Ht Ha Hs.
   destruct f; [discriminate|].
   destruct (method =? 0).
   - destruct (amt =? 0); [inversion H; reflexivity|].
     destruct (bal_get l (treasury tid) denom <? amt); [discriminate|].
     inversion H; subst. rewrite !bal_get_add_other by congruence. reflexivity.
-  - destruct (method =? 1); [|discriminate]. inversion H; subst.
-    rewrite bal_get_add_other by congruence. reflexivity.
+  - destruct (method =? 1); [|discriminate].
+    destruct (two256 <=? _); [discriminate|]. inversion H; subst.
+    rewrite !bal_get_add_other by congruence. reflexivity.
 Qed.
 
 (* native payout: the treasury is debited by exactly what the recipient receives *)
@@ -115,17 +116,19 @@ Qed.
 (* mint payout: no bank balance of the treasury changes *)
 Lemma pay_all_mint_treasury tid denom d : forall outs l faults l' f',
   pay_all 1 tid denom l faults outs = (Some l', f') ->
-  (forall o, In o outs -> fst o <> treasury tid) ->
+  (forall o, In o outs -> fst o <> treasury tid) -> 0 <= tid ->
   bal_get l' (treasury tid) d = bal_get l (treasury tid) d.
 Proof.
-  induction outs as [|o outs IH]; intros l faults l' f' Hp Hne; simpl in Hp.
+  induction outs as [|o outs IH]; intros l faults l' f' Hp Hne Htid; simpl in Hp.
   - inversion Hp; subst. reflexivity.
   - destruct (pay_one 1 tid denom l (match faults with [] => false | f :: _ => f end) o) as [l1|] eqn:E1; [|discriminate].
-    apply IH in Hp; [|intros; apply Hne; right; assumption]. rewrite Hp.
+    apply IH in Hp; [|intros; apply Hne; right; assumption|assumption]. rewrite Hp.
     destruct o as [addr amt]. unfold pay_one in E1. simpl in E1.
     destruct (match faults with [] => false | f :: _ => f end); [discriminate|].
-    inversion E1; subst. apply bal_get_add_other. intro H. inversion H as [[H1 H2]].
-    apply (Hne (addr, amt)); [left; reflexivity|simpl; congruence].
+    destruct (two256 <=? _); [discriminate|].
+    inversion E1; subst. rewrite !bal_get_add_other; [reflexivity| |].
+    + intro H. inversion H as [[H1 H2]]. apply (Hne (addr, amt)); [left; reflexivity|simpl; congruence].
+    + intro H. inversion H as [[H1 H2]]. unfold treasury, sbt_supply, two160 in H1. lia.
 Qed.
 
 (* without faults a native payout succeeds as soon as the treasury covers the total *)
